@@ -26,6 +26,21 @@ Theorem C19_compressed_truncation_raises : forall t n, wf t -> no_0x88_key t ->
 Proof. exact parse_raising_prefix. Qed.
 Print Assumptions C19_compressed_truncation_raises.
 
+(* the same with the faithful writer (Python == as the metadata test): leading segments of what the
+   whole file reads back as, [rep_py t] (= cells t on coherent triangles, see Props/C05.v) *)
+Theorem C19_prefix_safe_faithful_writer : forall t n, wf t -> no_0x88_key t ->
+  (n < length (ser_py t))%nat ->
+  (exists e, parse (firstn n (ser_py t)) = RErr e) \/
+  (exists k, parse (firstn n (ser_py t)) = ROk (firstn k (rep_py t))).
+Proof. exact parse_prefix_py. Qed.
+Print Assumptions C19_prefix_safe_faithful_writer.
+
+Theorem C19_prefix_safe_coherent : forall t n, wf t -> no_0x88_key t -> coherentb t = true ->
+  (n < length (ser_py t))%nat ->
+  (exists e, parse (firstn n (ser_py t)) = RErr e) \/
+  (exists k, parse (firstn n (ser_py t)) = ROk (firstn k (cells t))).
+Proof. exact parse_prefix_py_coherent. Qed.
+
 (* without no_0x88_key a prefix CAN be read as different data (same root cause as F9):
    the 137-field file cut anywhere after the first cell record... even uncut it yields a cell
    with fewer fields; here a strict prefix doing so *)
